@@ -104,7 +104,7 @@ def build_ra(arr):
     return ra.RaggedArray(data, lengths=lengths, **extra)
 
 
-IDX_DT = {'int64': np.int64, 'int32': np.int32, 'int16': np.int16, 'uint8': np.uint8, 'intp': np.intp}
+IDX_DT = {'int64': np.int64, 'int32': np.int32, 'int16': np.int16, 'int8': np.int8, 'uint8': np.uint8, 'intp': np.intp}
 
 
 def py_index(idx, mask_ra=None):
@@ -202,9 +202,16 @@ def oracle(rows, op, idx):
         return 'rows', [_col(x, c) for x in sel]
     if ct == 'int':
         return 'arr', np.array([x[c['v']] for x in sel]).reshape((len(sel),) + rows[0].shape[1:])
-    if len(r['v']) != len(c['v']):
-        raise ValueError('unpaired')
-    out = [rows[i][j] for i, j in zip(r['v'], c['v'])]
+    rv, cv = list(r['v']), list(c['v'])
+    if len(rv) != len(cv):
+        # numpy broadcasts a one-element index list against the other one
+        if len(cv) == 1:
+            cv = cv * len(rv)
+        elif len(rv) == 1 and len(cv) > 0:
+            rv = rv * len(cv)
+        else:
+            raise ValueError('unpaired')
+    out = [rows[i][j] for i, j in zip(rv, cv)]
     return 'arr', np.array(out).reshape((len(out),) + rows[0].shape[1:])
 
 
@@ -361,6 +368,11 @@ def exhaustive_indices(lengths):
     for i, i2 in itertools.product(rr, rr):
         for j, j2 in ((0, 0), (0, -1), (-1, 0), (Lm - 1, 0), (min(lengths), -min(lengths)), (-Lm, 1)):
             yield T(Lst([i, i2]), Lst([j, j2], True))
+        for j in cc:                       # one-element column list broadcast over two rows, and the converse
+            yield T(Lst([i, i2]), Lst([j]))
+    for i in rr:
+        for j, j2 in itertools.product(cc, cc):
+            yield T(Lst([i], True), Lst([j, j2]))
 
 
 def all_masks(lengths):
@@ -389,7 +401,7 @@ def rand_list(rng, L, k=None, oob=0.1):
     return [int(x) for x in rng.integers(lo, hi, size=k)]
 
 
-SCALAR_DT = ['int64', 'int32', 'int16', 'intp']
+SCALAR_DT = ['int64', 'int32', 'int16', 'int8', 'intp']
 
 
 def rand_part(rng, L, in_tuple=True):
@@ -409,7 +421,7 @@ def rand_part(rng, L, in_tuple=True):
     if p['t'] == 'arr':
         w = rng.random()
         if w < 0.5:
-            p['dt'] = ['int32', 'int16', 'intp'][int(rng.integers(0, 3))]
+            p['dt'] = ['int32', 'int16', 'int8', 'intp'][int(rng.integers(0, 4))]
         elif w < 0.7 and all(x >= 0 for x in p['v']):
             p['dt'] = 'uint8'
         if rng.random() < 0.2:
@@ -431,6 +443,16 @@ def rand_index(rng, lengths):
         return {'t': 'mask', 'v': rand_mask(rng, lengths)}
     r = rand_part(rng, n)
     c = rand_part(rng, Lm if rng.random() < 0.7 else min(lengths))
+    if r['t'] in ('list', 'arr') and c['t'] in ('list', 'arr') and rng.random() < 0.25:
+        # one side is a one-element list: broadcast against the other
+        if rng.random() < 0.6 or len(c['v']) == 0:
+            c = dict(c, v=rand_list(rng, min(lengths), k=1))
+        else:
+            r = dict(r, v=rand_list(rng, n, k=1))
+        for q in (r, c):
+            if q.get('dt') == 'uint8' and any(x < 0 for x in q['v']):
+                q['dt'] = 'int32'
+        return T(r, c)
     if r['t'] in ('list', 'arr') and c['t'] in ('list', 'arr'):
         k = len(r['v'])
         c2 = Lst(rand_list(rng, min(lengths) if rng.random() < 0.7 else Lm, k=k), arr=c['t'] == 'arr')
@@ -517,6 +539,18 @@ def big_families(rng, thorough):
         out.append(('get', T({'t': 'arr', 'v': rr, 'dt': 'int32'}, S([None, 3, None]))))
         out.append(('get', T(I(long_row), {'t': 'arr', 'v': cc, 'dt': 'int32'})))
         out.append(('get', T(I(long_row), {'t': 'arr', 'v': [-x - 1 for x in cc], 'dt': 'int16' if Lm < 30000 else 'int32'})))
+        if Lm > 127:
+            out.append(('get', T(I(long_row), {'t': 'arr', 'v': [-1, -2, -100, -128], 'dt': 'int8'})))
+            out.append(('get', T({'t': 'arr', 'v': [long_row] * 2, 'dt': 'int32'}, {'t': 'arr', 'v': [-1, -127], 'dt': 'int8'})))
+        if n > 127:
+            out.append(('get', T({'t': 'arr', 'v': [-1, -2, -128], 'dt': 'int8'}, I(0))))
+            out.append(('get', T({'t': 'arr', 'v': [-1, 5], 'dt': 'int8'}, Lst([0, 0]))))
+            out.append(('get', {'t': 'arr', 'v': [-1, -128, 127], 'dt': 'int8'}))
+            out.append(('get', T({'t': 'arr', 'v': [-1, -128], 'dt': 'int8'}, S([None, 1, None]))))
+        if n > 32767:
+            out.append(('get', T({'t': 'arr', 'v': [-1, -2], 'dt': 'int16'}, I(0))))
+        if Lm > 32767:
+            out.append(('get', T(I(long_row), {'t': 'arr', 'v': [-1, -2], 'dt': 'int16'})))
         pr = [rr[-1], long_row, rr[0], long_row]
         pc = [lengths[rr[-1]] - 1, Lm - 1, 0, -Lm]
         out.append(('get', T({'t': 'arr', 'v': pr, 'dt': 'int32'}, {'t': 'arr', 'v': pc, 'dt': 'int32'})))
@@ -572,6 +606,27 @@ K_NOROWS = 'getitem-2d-no-rows-selected'
 K_EMPTYROW = 'getitem-2d-col-slice-empties-a-row'
 K_EMPTYLIST = 'getitem-2d-empty-index-list-or-all-false-mask'
 K_RECT = 'rect-fastpath-multidim-cells'
+# open findings of the current tree (known_findings.d/C05.json, fix proposal C05-paired-broadcast-narrow-int.diff)
+K_BCAST = 'getitem-paired-one-element-column-list'
+K_NARROW = 'getitem-narrow-int-index-overflow'
+DT_MAX = {'int8': 127, 'int16': 32767}
+
+
+def open_keys(arr, op, idx):
+    """input classes of the two open findings (computed from the input alone)"""
+    keys = []
+    if op == 'get' and idx['t'] == 'tuple':
+        r, c = idx['r'], idx['c']
+        if r['t'] in ('list', 'arr') and c['t'] in ('list', 'arr') and len(c['v']) == 1 and len(r['v']) != 1:
+            keys.append(K_BCAST)
+        if r['t'] != 'slice' and c['t'] != 'slice':
+            n, Lm = len(arr['lengths']), max(arr['lengths'])
+            for p, size in ((r, n), (c, Lm)):
+                if p['t'] == 'arr' and p.get('dt') in DT_MAX and any(v < 0 for v in p['v']) and size > DT_MAX[p['dt']]:
+                    keys.append(K_NARROW)
+                    break
+    return keys
+
 
 
 def is_fast(arr):
@@ -889,6 +944,8 @@ def judge(ctx, impl, op, idx, mresp, record=True, extra_tags=(), twice=True):
             tags.append('ctor-kw=' + arr['kw'])
         for k in keys:
             tags.append('formerly-failing-class:' + k)
+        for k in open_keys(arr, op, idx):
+            tags.append('class:' + k)
         ctx.case(case, nontrivial=nontrivial, tags=tags)
     else:
         ctx.evaluations += 1
@@ -897,8 +954,12 @@ def judge(ctx, impl, op, idx, mresp, record=True, extra_tags=(), twice=True):
             what = 'access outside a row/array returned %r instead of raising' % (i,)
         else:
             what = 'read differs from the same read on the list of rows: got %r, expected %r' % (i, o['ok'])
-        # nothing is excused: the input classes the pre-fix tree got wrong are tags only
-        ctx.violation(what[:600], dict(case, got=i, expected=o), key=None)
+        # the input classes the pre-fix tree got wrong are tags only; excused are only the two open findings
+        okeys = open_keys(arr, op, idx)
+        ctx.violation(what[:600], dict(case, got=i, expected=o), key=okeys[0] if okeys else None)
+        if okeys:
+            ctx.skip('model comparison skipped (model = proposed repair): ' + okeys[0])
+            return
     # correspondence with the model (repaired variant)
     if mresp is None:
         ctx.skip('model-skipped-large-array')
@@ -906,7 +967,9 @@ def judge(ctx, impl, op, idx, mresp, record=True, extra_tags=(), twice=True):
     m = model_canon(arr, op, idx, mresp, impl.flat)
     ii = {k: v for k, v in i.items() if k != 'exc'}
     if m != ii:
-        if holds:
+        if holds and open_keys(arr, op, idx):
+            ctx.skip('model comparison skipped (model = proposed repair): ' + open_keys(arr, op, idx)[0])
+        elif holds:
             ctx.disagreement('Model.Ragged vs RaggedArray (%s)' % op, dict(case, model=m, impl=i))
         # a violation outside the known classes has already been reported
 
